@@ -1,7 +1,15 @@
 (* C03 - commits never run ahead of successfully processed messages.
    Theorem statements only; proofs live in Proofs/ConsumerC02*.v / ConsumerC03*.v.  Model: Model/Consumer.v
-   (afkak/consumer.py:290-1131), monitors: Model/ConsumerLog.v. *)
-From AV Require Import Base.Util Model.Consumer Model.ConsumerLog Proofs.ConsumerC02ReqRun Proofs.ConsumerC02PwRun.
+   (afkak/consumer.py:290-1131), monitors: Model/ConsumerLog.v, ConsumerLogFifo.v, ConsumerLogSeg.v (REQ, PW, LOG) and
+   Model/ConsumerLogC03.v (PWB, C3, REQ2).
+   A monitor reads a run of the model as the harness reads a run of the implementation - the events injected, the
+   calls and Deferred outcomes produced - and rejects when the clause it restates is violated; a theorem says that no
+   run of the model is rejected, for every configuration and EVERY event list (the fuel hypothesis only excludes
+   runs on which the interpreter of the re-entrant methods gave up; C13_fuel_monotone).  Process death needs no event:
+   every prefix of an event list is an event list, so every statement holds at every crash point. *)
+From AV Require Import Base.Util Model.Consumer Model.ConsumerLog Model.ConsumerLogFifo Model.ConsumerLogSeg Model.ConsumerLogC03
+  Proofs.ConsumerC02ReqRun Proofs.ConsumerC02PwRun Proofs.ConsumerC03PwbRun Proofs.ConsumerC03Commit Proofs.ConsumerC03CommitRun
+  Proofs.ConsumerC03Req2Run Proofs.ConsumerC03Resume.
 
 (* At most one commit request is in flight, and the public last_committed_offset (read at the end of every step) only
    ever holds the offset carried by a commit request the broker acknowledged or the offset an offset-fetch reply
@@ -14,6 +22,19 @@ Theorem C03_single_commit_committed_is_acked : forall fuel c maxatt buf evs,
   = Some (req_abs (fst (run_events fuel (init c maxatt buf) evs))).
 Proof. exact req_monitor_accepts. Qed.
 Print Assumptions C03_single_commit_committed_is_acked.
+
+(* ... including retries: the monitor REQ2 (REQ plus the commit-retry DelayedCall) moreover rejects arming the retry
+   timer while a commit request is outstanding or the timer is already armed, and sending a commit request while the
+   timer is armed (its own firing disarms it first).  Hence "a commit request is outstanding" and "a retry is pending"
+   are mutually exclusive at every moment of every run, and each holds at most once.  ("Outstanding" is from the
+   consumer's point of view: not answered and not cancelled by it; a request cancelled by stop() may still reach the
+   coordinator - see C03_store_is_processed, which does not depend on which request the coordinator applies.) *)
+Theorem C03_single_commit : forall fuel c maxatt buf evs,
+  run_fuel_ok fuel c maxatt buf evs = true ->
+  mon_run req2_ev req2_out q20 (model_obs fuel c maxatt buf evs)
+  = Some (req2_abs (fst (run_events fuel (init c maxatt buf) evs))).
+Proof. exact req2_monitor_accepts. Qed.
+Print Assumptions C03_single_commit.
 
 (* Every commit request carries the offset of the last message of the most recent processor invocation that completed
    SUCCESSFULLY (returned normally, or returned a Deferred that later fired with a result) - never the offset of a block
@@ -29,6 +50,108 @@ Theorem C03_commit_is_last_processed : forall fuel c maxatt buf evs,
 Proof. exact pw_monitor_accepts. Qed.
 Print Assumptions C03_commit_is_last_processed.
 
+(* After a processor invocation FAILED nothing further is delivered (fix 55bad16 / F-C03-1): the monitor PWB
+   (Model/ConsumerLogC03.v) is PW plus one bit, set when an invocation is seen to fail - it raised, the Deferred it
+   returned failed, or the consumer cancelled it - and cleared only by an accepted start(); PWB rejects every
+   processor invocation while the bit is set.  It accepts every run; between events its window part is the function
+   pw_abs None of the model state and a set bit implies that the consumer is stopped or its start Deferred has fired.
+   (PW alone would accept "block [4,5] raises, block [6,7] succeeds, commit 7": pwb_rejects_after_failure below.) *)
+Theorem C03_no_delivery_after_failure : forall fuel c maxatt buf evs,
+  0 <= c_acn c -> run_fuel_ok fuel c maxatt buf evs = true ->
+  exists b, mon_run_s pwb_ev pwb_out pwb0 (run_steps fuel (init c maxatt buf) evs)
+            = Some (mkPB (pw_abs None (fst (run_events fuel (init c maxatt buf) evs))) b)
+            /\ (b = true -> dead (fst (run_events fuel (init c maxatt buf) evs)) = true).
+Proof. exact pwb_monitor_accepts. Qed.
+Print Assumptions C03_no_delivery_after_failure.
+
+(* commit_le_processed at full strength: the monitor C3 (Model/ConsumerLogC03.v) keeps, since the last accepted start(),
+   the messages handed to the processor (m_D) and those of the invocations that completed successfully (m_ok), both in
+   order; it rejects what PWB rejects, and a commit request unless (commit_ok) its offset is the last offset of the most
+   recent successful invocation, m_ok is a PREFIX of m_D - everything delivered before a processed message has been
+   processed - and, if anything was processed since that start(), the offset is the last of m_ok.  C3 accepts every
+   run, and its state satisfies c3_inv (Proofs/ConsumerC03Commit.v): m_D = m_ok ++ the block in progress (++ the failed
+   block, after which nothing is delivered); last_processed is the end of m_ok; the bookkeeping of the coordinator's
+   store (C03_store_is_processed).
+   Scope: "since the last accepted start()".  A consumer that is stopped and started again at a LOWER explicit offset
+   re-delivers messages below last_processed_offset, and a commit then carries the old value: the clause is about one
+   start position, as is the harness monitor. *)
+Theorem C03_commit_le_processed : forall fuel c maxatt buf evs,
+  0 <= c_acn c -> run_fuel_ok fuel c maxatt buf evs = true ->
+  exists g, mon_run_s c3_ev c3_out c30 (run_steps fuel (init c maxatt buf) evs) = Some g
+            /\ c3_inv g
+            /\ b_pw (m_b g) = pw_abs None (fst (run_events fuel (init c maxatt buf) evs))
+            /\ (b_bad (m_b g) = true -> dead (fst (run_events fuel (init c maxatt buf) evs)) = true).
+Proof. exact c3_monitor_accepts. Qed.
+Print Assumptions C03_commit_le_processed.
+
+(* ... read in terms of offsets: whenever C3's commit rule holds and the messages of this start position were delivered
+   in increasing offset order (C02_extract_ordered / C02_delivered_is_log_segment: what one start position delivers is
+   a segment of the log), EVERY delivered message with an offset at or below the committed one has been processed
+   successfully. *)
+Theorem C03_commit_le_processed_offsets : forall g off l,
+  commit_ok g off = true -> m_ok g <> [] -> off = Some l -> increasing (m_D g) ->
+  forall x, In x (m_D g) -> x <= l -> In x (m_ok g).
+Proof. exact commit_le_processed. Qed.
+Print Assumptions C03_commit_le_processed_offsets.
+
+(* The coordinator's offset store only ever holds the end of a successfully processed block.  C3 keeps m_ends (the
+   last offset of every successfully completed invocation of the whole run), m_sent (the offset carried by every commit
+   request ever sent), m_co (the one outstanding) and m_store, the store of an honest coordinator: a commit request
+   answered with error 0 (ECommitOk while a request is outstanding) stores the offset that request carried and nothing
+   else changes it.  In every run: m_store, every element of m_sent and m_co are None or an element of m_ends
+   (processed_end).  Because EVERY request ever sent carries such an offset, the same holds for a coordinator that
+   applies a request whose answer was lost, or one that stop() had cancelled: whatever it stored, it received in a
+   request.  Hence at every crash point the stored offset is the end of a successfully processed block, before which -
+   by C03_commit_le_processed - everything delivered since that start() had been processed. *)
+Theorem C03_store_is_processed : forall fuel c maxatt buf evs,
+  0 <= c_acn c -> run_fuel_ok fuel c maxatt buf evs = true ->
+  exists g, mon_run_s c3_ev c3_out c30 (run_steps fuel (init c maxatt buf) evs) = Some g
+            /\ processed_end g (m_store g) /\ Forall (processed_end g) (m_sent g)
+            /\ match m_co g with Some off => processed_end g off | None => True end.
+Proof. exact c3_store. Qed.
+Print Assumptions C03_store_is_processed.
+
+(* Resume, the consumer's side.  A fresh consumer with a group, started with OFFSET_COMMITTED, asks the coordinator for
+   the stored offset and nothing else ... *)
+Theorem C03_resume_asks_coordinator : forall fuel c m b, c_group c = true ->
+  step fuel (init c m b) (EStart OFF_COMMITTED)
+  = (after_start c m b, [OOffFetch] ++ (if c_acs c then [OSched T_LOOPER (-1)] else []) ++ [ORet 0; OEnd None None]).
+Proof. exact resume_first_step. Qed.
+Print Assumptions C03_resume_asks_coordinator.
+(* ... and when the coordinator answers with the stored offset v it records v as last_committed_offset and fetches from
+   EXACTLY v + 1 (consumer.py:606-616): the committed message is not fetched again and nothing after it is skipped ... *)
+Theorem C03_resume_position : forall fuel c m b v, 0 <= v ->
+  step fuel (after_start c m b) (EReqOk v)
+  = (resumed c m b v, [OFetch (v + 1) b; OEnd None (Some v)])
+  /\ s_foff (resumed c m b v) = v + 1 /\ s_lc (resumed c m b v) = Some v.
+Proof. intros. split; [apply resume_second_step; assumption | split; reflexivity]. Qed.
+Print Assumptions C03_resume_position.
+(* ... and with nothing stored (-1) it resolves its position by the auto_offset_reset policy instead. *)
+Theorem C03_resume_nothing_stored : forall fuel c m b,
+  snd (step fuel (after_start c m b) (EReqOk (-1)))
+  = [OOffReq (if c_reset c =? 2 then OFF_LATEST else OFF_EARLIEST); OEnd None None].
+Proof. exact resume_none_step. Qed.
+Print Assumptions C03_resume_nothing_stored.
+
+(* Resume, end to end: the second life.  A fresh consumer is started with OFFSET_COMMITTED against a coordinator that
+   answers v, and an honest broker over ANY log L with increasing offsets (every accepted fetch reply is a contiguous
+   run of L starting at or before the first entry at or above the offset asked for, cut anywhere: honest_run), for
+   EVERY continuation rest of the event list during which the position is not resolved again (no accepted start(), no
+   accepted offset reply, no OffsetOutOfRange reset: no_resolve).  Then the monitor LOG of C02 accepts the run and:
+   what the processor has received (l_D) followed by what is queued for it (l_g) is EXACTLY the log from the first
+   entry above v up to the next unread offset n - seg (v + 1) n L - every entry once, in order, none at or below v. *)
+Theorem C03_resume : forall fuel c maxatt buf v rest L,
+  c_group c = true -> 0 <= c_acn c -> 0 <= v -> increasing L ->
+  run_fuel_ok fuel c maxatt buf (EStart OFF_COMMITTED :: EReqOk v :: rest) = true ->
+  honest_run L 0 (run_steps fuel (init c maxatt buf) (EStart OFF_COMMITTED :: EReqOk v :: rest)) ->
+  no_resolve (run_steps fuel (resumed c maxatt buf v) rest) = true ->
+  exists gh, mon_run_s log_ev log_out log0 (run_steps fuel (init c maxatt buf) (EStart OFF_COMMITTED :: EReqOk v :: rest)) = Some gh
+             /\ l_D gh ++ l_g gh = l_E gh
+             /\ (forall n, l_nx gh = Some n -> v + 1 <= n /\ l_E gh = seg (v + 1) n L)
+             /\ (l_nx gh = None -> l_D gh = [] /\ l_g gh = []).
+Proof. exact resume_run. Qed.
+Print Assumptions C03_resume.
+
 (* ---- non-vacuity ---- *)
 (* a commit of an offset whose block has been handed to the processor but not completed is rejected *)
 Example pw_rejects_commit_ahead :
@@ -41,12 +164,35 @@ Example failed_block_ex :
   run_fuel_ok 30 c 0 4096 evs = true /\
   mon_run pw_ev pw_out pw0 (model_obs 30 c 0 4096 evs) = Some (mkPW PIdle [] None).
 Proof. vm_compute. split; reflexivity. Qed.
+(* ... the rest of the reply, [44;45], is NOT handed on, PWB's failure bit is set and the start Deferred has failed *)
+Example failed_block_pwb_ex :
+  let c := mkCfg true 2 false 0 None 17 in
+  let evs := [EStart 42; EPlan 0 1; EFetchOk [42; 43; 44; 45] false; ECommit] in
+  mon_run_s pwb_ev pwb_out pwb0 (run_steps 30 (init c 0 4096) evs) = Some (mkPB (mkPW PIdle [] None) true) /\
+  nth 2 (model_obs 30 c 0 4096 evs) (ETick, [])
+  = (EFetchOk [42; 43; 44; 45] false, [OCallProc [42; 43]; OStartD false 10; OSched 1 (-1); OEnd None None]).
+Proof. vm_compute. split; reflexivity. Qed.
+(* the trace the audit found PW to accept - a failed block, then another block and a commit of its end - : PW accepts, PWB rejects *)
+Example pwb_rejects_after_failure :
+  let outs := [OCallProc [4; 5]; OCallProc [6; 7]; OCommit (Some 7) 0] in
+  gouts pw_out (mkPW PIdle [(0, 1); (0, 0)] None) outs = Some (mkPW PIdle [] (Some 7)) /\
+  gouts pwb_out (mkPB (mkPW PIdle [(0, 1); (0, 0)] None) false) outs = None.
+Proof. split; reflexivity. Qed.
+(* C3's commit rule rejects a commit while an earlier delivered message is unprocessed *)
+Example c3_rejects_gap :
+  commit_ok (mkC3 (mkPB (mkPW PIdle [] (Some 7)) false) [] [4; 5; 6; 7] [6; 7] [7] None [] None) (Some 7) = false.
+Proof. reflexivity. Qed.
 (* the monitor rejects a second commit request in flight and an unacknowledged last_committed_offset *)
 Example rejects_second_commit :
   mon_run req_ev req_out q0 [(ECommit, [OCommit (Some 4) (-1); OCommit (Some 5) (-1)])] = None.
 Proof. reflexivity. Qed.
 Example rejects_unacked : mon_run req_ev req_out q0 [(ECommit, [OCommit (Some 4) (-1); OEnd (Some 4) (Some 4)])] = None.
 Proof. reflexivity. Qed.
+(* REQ2 rejects a retry armed while the request is still outstanding, and a request sent while a retry is armed *)
+Example req2_rejects :
+  mon_run req2_ev req2_out q20 [(ECommit, [OCommit (Some 4) 0; OSched T_COMMIT 1])] = None /\
+  mon_run req2_ev req2_out q20 [(ECommit, [OCommit (Some 4) 0]); (ECommitFail 1, [OSched T_COMMIT 1; OCommit (Some 4) 0])] = None.
+Proof. split; reflexivity. Qed.
 (* a run with an auto-commit by count, its acknowledgement, and a resume position reported by an offset fetch *)
 Example commit_ex :
   let c := mkCfg true 2 false 0 None 17 in
@@ -54,3 +200,33 @@ Example commit_ex :
   run_fuel_ok 30 c 0 4096 evs = true /\
   mon_run req_ev req_out q0 (model_obs 30 c 0 4096 evs) = Some (mkQ None true None (Some 43)).
 Proof. vm_compute. split; reflexivity. Qed.
+(* a commit that fails retriably, the retry timer, its firing re-sends, the acknowledgement: REQ2 and C3 follow; the
+   store ends at 43, the end of the processed block [42;43]; both requests carried it *)
+Example commit_retry_ex :
+  let c := mkCfg true 2 false 0 None 17 in
+  let evs := [EStart 42; EPlan 0 0; EFetchOk [42; 43] false; ECommitFail 1; EFireCommitRetry; ECommitOk] in
+  run_fuel_ok 30 c 0 4096 evs = true /\
+  mon_run req2_ev req2_out q20 (model_obs 30 c 0 4096 (firstn 4 evs)) = Some (mkQ2 (mkQ None true None None) true) /\
+  mon_run req2_ev req2_out q20 (model_obs 30 c 0 4096 evs) = Some (mkQ2 (mkQ None true None (Some 43)) false) /\
+  mon_run_s c3_ev c3_out c30 (run_steps 30 (init c 0 4096) evs)
+  = Some (mkC3 (mkPB (mkPW PIdle [] (Some 43)) false) [] [42; 43] [42; 43] [43] None [Some 43; Some 43] (Some 43)).
+Proof. vm_compute. repeat split; reflexivity. Qed.
+(* the second life over the log [3;4;7;8;9;15;16] (compaction gaps) with 4 stored: the consumer asks for 5, receives
+   the honest reply [7;8;9], and the processor gets exactly log[5,10) = [7;8;9] - nothing at or below 4, nothing skipped *)
+Example resume_ex :
+  let c := mkCfg true 2 false 0 None 17 in
+  let L := [3; 4; 7; 8; 9; 15; 16] in
+  let rest := [EPlan 0 0; EFetchOk [7; 8; 9] false] in
+  let evs := EStart OFF_COMMITTED :: EReqOk 4 :: rest in
+  run_fuel_ok 30 c 0 4096 evs = true /\ no_resolve (run_steps 30 (resumed c 0 4096 4) rest) = true /\
+  mon_run_s log_ev log_out log0 (run_steps 30 (init c 0 4096) evs) = Some (mkL 5 (Some 10) 5 [7; 8; 9] [] [] [7; 8; 9]) /\
+  seg 5 10 L = [7; 8; 9].
+Proof. vm_compute. repeat split; reflexivity. Qed.
+Example resume_ex_honest :
+  honest_run [3; 4; 7; 8; 9; 15; 16] 0
+    (run_steps 30 (init (mkCfg true 2 false 0 None 17) 0 4096) [EStart OFF_COMMITTED; EReqOk 4; EPlan 0 0; EFetchOk [7; 8; 9] false]).
+Proof.
+  match goal with |- honest_run _ _ ?t => set (tr := t) end. vm_compute in tr. subst tr.
+  cbn [honest_run last_fetch fold_left]. repeat split.
+  intros _. exists [3; 4], [15; 16]. split; [reflexivity | repeat constructor].
+Qed.
